@@ -35,18 +35,37 @@ func genC19(rt *rapid.T) c19Case {
 	return c
 }
 
+// Every version declares an input type whose required field alternates with
+// the version, and the failing edits declare a different one: what a failed
+// reload leaves behind must not change how the running version validates.
+func c19Types(version int) string {
+	return fmt.Sprintf(": In {\n  f%d: int!\n}\n\n", version%2)
+}
+
 func c19Source(kind string, version int) string {
+	typed := fmt.Sprintf("@ POST /t {\n  < input: In\n  > {v: %d, typed: true}\n}\n", version)
 	switch kind {
 	case "valid":
-		return fmt.Sprintf("@ GET /v {\n  > {v: %d}\n}\n", version)
+		return c19Types(version) + fmt.Sprintf("@ GET /v {\n  > {v: %d}\n}\n\n", version) + typed
 	case "lexerr":
-		return fmt.Sprintf("@ GET /v {\n  > {v: %d, s: \"unterminated}\n}\n", version)
+		return ": In {\n  other: str!\n}\n\n" + fmt.Sprintf("@ GET /v {\n  > {v: %d, s: \"unterminated}\n}\n", version)
 	case "parseerr":
-		return fmt.Sprintf("@ GET /v {\n  > {v: %d\n", version)
+		return ": In {\n  other: str!\n}\n\n" + fmt.Sprintf("@ GET /v {\n  > {v: %d\n", version)
 	case "semerr":
-		return fmt.Sprintf("@ GET /v {\n  $ a = %d\n  $ a = 2\n  > {v: a}\n}\n", version)
+		return ": In {\n  other: str!\n}\n\n" + fmt.Sprintf("@ GET /v {\n  $ a = %d\n  $ a = 2\n  > {v: a}\n}\n\n", version) + typed
 	}
 	return ""
+}
+
+func c19Post(port, version int) (int, string, error) {
+	cl := &http.Client{Timeout: 3 * time.Second, Transport: &http.Transport{DisableKeepAlives: true}}
+	resp, err := cl.Post(fmt.Sprintf("http://127.0.0.1:%d/t", port), "application/json", strings.NewReader(fmt.Sprintf(`{"f%d": 1}`, version%2)))
+	if err != nil {
+		return 0, "", err
+	}
+	defer resp.Body.Close()
+	b, _ := io.ReadAll(resp.Body)
+	return resp.StatusCode, strings.TrimSpace(string(b)), nil
 }
 
 var c19Seq int64
@@ -94,7 +113,7 @@ func runC19(c c19Case) evid.Outcome {
 	if st, body, err := c19Get(port); err != nil || st != 200 || normJSON(body) != `{"v":0}` {
 		return evid.Outcome{Skip: fmt.Sprintf("initial version not served: %d %q %v", st, body, err)}
 	}
-	lastGood := 0         // most recent version that certainly loaded
+	lastGood := 0          // most recent version that certainly loaded
 	emptyPossible := false // an empty file was saved since: "no routes" is an acceptable loaded version too
 	failedSeen, recovered := false, false
 	history := []string{"v0"}
@@ -134,6 +153,13 @@ func runC19(c c19Case) evid.Outcome {
 				key = "c19.valid-edit-did-not-take-effect"
 			}
 			return evid.Failf(key, "%s", desc)
+		}
+		if okGood {
+			// the served version still validates input against ITS OWN type definitions
+			pst, pbody, perr := c19Post(port, lastGood)
+			if perr != nil || pst != 200 || normJSON(pbody) != fmt.Sprintf(`{"typed":true,"v":%d}`, lastGood) {
+				return evid.Failf("c19.failed-reload-changed-the-running-version", "after edits %v: version %d is served, but POST /t with a body valid for that version's input type -> %d %q (err %v)", history, lastGood, pst, pbody, perr)
+			}
 		}
 	}
 	return evid.Outcome{Nontrivial: failedSeen, Labels: func() []string {
